@@ -96,6 +96,7 @@ var mutantCatalogue = map[string][]mutant{
 		{Name: "rollback forgets the replaced writes", File: "risc/app.go", Old: "\t\tfor _, overwritten := range ctx.transactionOverwritten[register] {\n\t\t\tif overwritten.sequenceID < sequenceID && (tu.sequenceID >= sequenceID || overwritten.sequenceID > tu.sequenceID) {\n\t\t\t\ttu = overwritten\n\t\t\t}\n\t\t}\n", New: ""},
 	},
 	"C07": {
+		{Name: "refused writer still counted", File: "proc/comp/semaphore.go", Old: "\tif s.write > 0 || s.read > 0 {\n\t\treturn false\n\t}\n\ts.write++", New: "\ts.write++\n\tif s.write > 1 || s.read > 0 {\n\t\treturn false\n\t}"},
 		{Name: "final drain never steps the snoops", File: "proc/mvp7-0/cpu.go", Old: "\t\t\tcc.snoop.Cycle(struct{}{})\n\t\t}\n\t\tfor i, eu", New: "\t\t}\n\t\tfor i, eu"},
 		{Name: "final drain never connects the write bus", File: "proc/mvp7-1/cpu.go", Old: "\t\t// What the execute units completed still has to be written\n\t\tm.writeBus.Connect(cycle)\n", New: ""},
 		{Name: "execute unit stays suspended across a flush", File: "proc/mvp7-0/eu.go", Old: "func (u *executeUnit) flush() {\n\tu.Reset()\n", New: "func (u *executeUnit) flush() {\n"},
@@ -175,6 +176,8 @@ var mutantCatalogue = map[string][]mutant{
 		{Name: "L3 dirty flag keyed by the L1 alignment", File: "proc/mvp8-0/cc.go", Old: "\tl3Addr := getL3AlignedMemoryAddress([]int32{int32(l1Addr)})\n\tcc.msi.l3WriteNotify(l3Addr)", New: "\tl3Addr := getL1AlignedMemoryAddress([]int32{int32(l1Addr)})\n\tcc.msi.l3WriteNotify(l3Addr)"},
 	},
 	"C06": {
+		{Name: "writer admitted among readers", File: "proc/comp/semaphore.go", Old: "if s.write > 0 || s.read > 0 {", New: "if s.write > 0 {"},
+		{Name: "line lock not stored", File: "proc/mvp7-1/msi.go", Old: "\t\tsem = &comp.Sem{}\n\t\tm.pendings[alignedAddr] = sem\n", New: "\t\tsem = &comp.Sem{}\n"},
 		{Name: "completed command stays in the table", File: "proc/mvp7-0/msi.go", Old: "\t\t\t\tdelete(m.commands, cmdRequest)\n", New: ""},
 		{Name: "done() without the callback", File: "proc/mvp8-0/msi.go", Old: "\tr.doneFlag = true\n\tr.callback()\n", New: "\tr.doneFlag = true\n"},
 		{Name: "snoop write-back at the L3 line address", File: "proc/mvp8-0/cc.go", Old: "cc.mmu.writeToMemory(req.alignedAddr, memory)", New: "cc.mmu.writeToMemory(getL3AlignedMemoryAddress([]int32{int32(req.alignedAddr)}), memory)"},
@@ -193,6 +196,7 @@ var mutantCatalogue = map[string][]mutant{
 		{Name: "latency read from a global counter", File: "proc/comp/cache.go", Old: "func (c *LRUCache) Lines() []Line {", New: "func (c *LRUCache) Skew() int {\n\treturn Delta % 2\n}\n\nfunc (c *LRUCache) Lines() []Line {"},
 	},
 	"C10": {
+		{Name: "reader admitted beside a writer", File: "proc/comp/semaphore.go", Old: "func (s *Sem) RLock() bool {\n\tif s.write > 0 {\n\t\treturn false\n\t}\n", New: "func (s *Sem) RLock() bool {\n"},
 		{Name: "write unit forgets the store", File: "proc/mvp6-1/wu.go", Old: "\t\t\tr.ctx.WriteMemory(u.memoryWrite.Execution)\n", New: ""},
 		{Name: "L3 miss snapshots the line at issue", File: "proc/mvp6-3/eu.go", Old: "\t\t\tu.Checkpoint(func(r euReq) euResp {\n\t\t\t\tif remainingCycles > 0 {\n\t\t\t\t\tlog.Infoi(r.ctx, \"EU\", u.runner.Runner.InstructionType(), u.runner.Pc, \"pending memory access %d\", remainingCycles)\n\t\t\t\t\tremainingCycles--\n\t\t\t\t\treturn euResp{}\n\t\t\t\t}\n\t\t\t\tline := u.mmu.fetchCacheLine(addrs[0])\n", New: "\t\t\tline := u.mmu.fetchCacheLine(addrs[0])\n\t\t\tu.Checkpoint(func(r euReq) euResp {\n\t\t\t\tif remainingCycles > 0 {\n\t\t\t\t\tlog.Infoi(r.ctx, \"EU\", u.runner.Runner.InstructionType(), u.runner.Pc, \"pending memory access %d\", remainingCycles)\n\t\t\t\t\tremainingCycles--\n\t\t\t\t\treturn euResp{}\n\t\t\t\t}\n"},
 		{Name: "store becomes visible after the latency only", File: "proc/mvp4/wu.go", Old: "\t\twu.pendingMemoryWrite = true\n\t\twu.cycles = latency.MemoryAccess\n\t\tctx.WriteMemory(execution.Execution)", New: "\t\tctx.WriteMemory(execution.Execution)"},
